@@ -238,7 +238,17 @@ def ciq_cases(draw, tier):
     n = draw(st.sampled_from(NS))
     full, kb, rb = _batches(draw)
     kappas = [1.0, 10.0, 1e2, 1e2, 1e4] if n <= 20 else [1.0, 10.0, 1e2]
-    kind = draw(st.sampled_from(["ciq", "ciq", "sqrtinv", "sqrtinv", "sqrtinv", "sample"]))
+    kind = draw(st.sampled_from(["ciq", "ciq", "sqrtinv", "sqrtinv", "sqrtinv", "sample", "ciq_precond"]))
+    if kind == "ciq_precond":
+        # K^{1/2} b (inverse=False, the sampling direction) on an AddedDiag operator whose pivoted-Cholesky preconditioner is ACTIVE
+        n2 = draw(st.sampled_from([m_ for m_ in NS if 3 <= m_ <= 12] or [6]))
+        spec = draw(_spec(n2, (), [10.0, 10.0, 1e2]))
+        t = draw(st.integers(1, 3))
+        return {
+            "kind": kind, "dt": "f64", "spec": spec, "rhs": _draw_rhs(draw, "f64", (), n2, t),
+            "rank": draw(st.integers(1, max(1, n2 - 1))), "const_diag": draw(st.booleans()),
+            "settings": {"min_preconditioning_size": 0, "minres_tolerance": 1e-10, "num_contour_quadrature": 20},
+        }
     case = {"kind": kind, "dt": dt, "settings": {}}
     Q = draw(st.sampled_from([None, None, 3, 5, 8, 10, 20]))
     if kind == "ciq":
@@ -1142,9 +1152,44 @@ def _check_sample(case):
     return {"nontrivial": True, "labels": labels}
 
 
+def _check_ciq_precond(case):
+    """With the operator's preconditioner active, R = sum_q w_q solves_q for the right-hand side I is a (non-symmetric) square
+    root: R R^T = K, which is what contour-integral SAMPLING needs (covariance K).  That R differs from the symmetric K^{1/2}
+    is the open finding F-C11-ciq-precond; here only the covariance identity is asserted.  End-to-end comparison (the
+    per-solve analysis of _check_ciq models un-preconditioned MINRES): with Q = 20 nodes and kappa <= 1e2 the quadrature
+    error is below 1e-9 (rate exp(-2 pi^2 Q / (log kappa + 3))), the MINRES residuals are 1e-10; 1e-6 ||K|| is asserted."""
+    from linear_operator.operators import AddedDiagLinearOperator, ConstantDiagLinearOperator, DenseLinearOperator, DiagLinearOperator
+
+    lu, _ = _mods()
+    K = _dense_K(case).double()
+    n = K.shape[-1]
+    ew, eV = _eig(K)
+    s_ = float(ew.min()) / 2.0
+    base = DenseLinearOperator(K - s_ * torch.eye(n, dtype=F64))
+    diag = ConstantDiagLinearOperator(torch.tensor([s_], dtype=F64), diag_shape=n) if case.get("const_diag") else DiagLinearOperator(torch.full((n,), s_, dtype=F64))
+    op = AddedDiagLinearOperator(base, diag)
+    cell = dict(case.get("settings", {}), max_preconditioner_size=int(case["rank"]))
+    where = "contour_integral_quad:preconditioned"
+    with state.apply_settings(cell):
+        try:
+            active = op._preconditioner()[0] is not None
+            # the quadrature interval comes from a Lanczos run on the FIRST column: a vector with equal components along all
+            # eigenvectors makes that estimate accurate (the precondition of the statement); the columns of I follow
+            probe = (eV @ torch.ones(n, 1, dtype=F64)) / math.sqrt(n)
+            solves, weights, _, _ = lu.contour_integral_quad(op, torch.cat([probe, torch.eye(n, dtype=F64)], -1), inverse=False)
+        except Exception as e:
+            _fail("ciq-run", where, "exc:" + X.describe(e), "contour_integral_quad raised %r" % (e,))
+    Rt = (solves.double() * weights.double()).sum(0)[..., 1:]
+    err = float((Rt @ Rt.mT - K).abs().max())
+    bound = 1e-6 * float(ew.max()) + 1e-300
+    if err > bound:
+        _fail("ciq-cov", where, "value", "max |R R^T - K| = %.3g > %.3g for R = sum_q w_q solves_q(I) (n=%d, rank %d, preconditioner active=%s)" % (err, bound, n, case["rank"], active))
+    return {"nontrivial": bool(active), "labels": ["kind:ciq_precond", "dtype:f64", "precond_active:%s" % active, "n:%d" % n, "inverse:False"]}
+
+
 def check(case):
     kind = case["kind"]
-    fn = {"minres": _check_minres, "ciq": _check_ciq, "sqrtinv": _check_sqrtinv, "sample": _check_sample}.get(kind)
+    fn = {"minres": _check_minres, "ciq": _check_ciq, "sqrtinv": _check_sqrtinv, "sample": _check_sample, "ciq_precond": _check_ciq_precond}.get(kind)
     if fn is None:
         raise HarnessError("unknown case kind %r" % (kind,))
     info = fn(case)
